@@ -148,6 +148,23 @@ inline Plan gen_plan(uint64_t seed, uint64_t index, Tier tier, int profile, bool
     case P_C12:
     {
         g.max_N = 6;
+        // thorough tier: every order in which one thread can process the segments, for N = 1..5 (1+2+6+24+120 = 153
+        // permutations), each on a fresh random problem/configuration; the block repeats so that every order/dimension
+        // universe sees every permutation several times
+        if (thorough && index < 153 * 400)
+        {
+            static const int fact[6] = {1, 1, 2, 6, 24, 120};
+            int e = (int)(index % 153), N = 1;
+            while (e >= fact[N]) { e -= fact[N]; ++N; }
+            if (r.chance(0.5)) g.op(OP_SET_TMAP, {0, g.rnd(3)});
+            if (r.chance(0.6)) g.op(OP_SET_SMAP, {0, g.rnd(3)});
+            g.set_init(0, N);
+            g.op(OP_SET_FLAGS, {0, g.rnd(256)});
+            if (r.chance(0.7)) g.op(OP_SET_RHO, {0, g.rnd(5)});
+            g.op(OP_SET_K, {0, r.range(1, 16)});
+            g.op(OP_EVAL, {0, g.rnd(1u << 30), 0, g.rnd(4), 6, e, 0, r.chance(0.75) ? 1 : 0, CHK_TWIN});
+            break;
+        }
         g.configure(0, true);
         int n = (int)r.range(1, thorough ? 5 : 3);
         for (int q = 0; q < n; ++q)
@@ -156,10 +173,6 @@ inline Plan gen_plan(uint64_t seed, uint64_t index, Tier tier, int profile, bool
             if (u < 0.55) g.op(OP_CONCURRENT, {0, g.rnd(3), r.chance(0.6) ? 1 : 0, g.rnd(1u << 30), 0});
             else if (u < 0.85) g.eval(0, CHK_TWIN, -1, 0, (int)r.range(1, 5));
             else g.configure(0, r.chance(0.5));
-        }
-        if (thorough && index < 720)
-        {
-            // (the permutation enumeration of the thorough tier lives in a dedicated workload)
         }
         break;
     }
